@@ -364,3 +364,206 @@ SPECS.append(FucSpec(
     clause='every location handed to serve_file / os.listdir lies inside the document root, for every request path, '
            'also when the handler is called directly (no front-end guard assumed)',
 ))
+
+
+# ----------------------------------------------------------------------------- serve_file: status, Content-Range, Content-Length, body
+# Ghost: FILE = the bytes of the file (length c_len = st.st_size).  Trusted: open/seek/read (read(k) after seek(a) returns
+# FILE[a:a+k]), os.stat, formatdate, mimetypes.  get_ranges enters through its CONTRACT (verified above): None, [] or a list of
+# ranges with 0 <= a < b <= c_len.
+class HeadersModel(VModel):
+    """response.headers / request.headers: a str -> value map, writes recorded"""
+
+    def __init__(self, I, name, initial=None):
+        self.name, self.d = name, dict(initial or {})
+
+    def setitem(self, I, k, v):
+        k = lib.unopt(I, k)
+        if not (isinstance(k, VStr) and z3.is_string_value(k.t)):
+            raise Unsupported('header name %r' % (k,))
+        self.d[k.t.as_string()] = v
+
+    def getitem(self, I, k):
+        return self.d[lib.unopt(I, k).t.as_string()]
+
+    def contains(self, I, item):
+        item = lib.unopt(I, item)
+        return z3.BoolVal(item.t.as_string() in self.d)
+
+    def getattr(self, I, name):
+        if name == 'get':
+            return VFunc('headers.get', impl=lambda I2, b, a, k: self.d.get(lib.unopt(I2, a[0]).t.as_string(), a[1] if len(a) > 1 else NONE))
+        raise Unsupported('headers.%s' % name)
+
+    def delitem(self, I, k):
+        self.d.pop(lib.unopt(I, k).t.as_string(), None)
+
+
+class FileModel(VModel):
+    def __init__(self, content):
+        self.content, self.pos = content, z3.IntVal(0)
+
+    def getattr(self, I, name):
+        if name == 'seek':
+            def seek(I2, b, a, k):
+                self.pos = lib.unopt(I2, a[0]).t
+                return NONE
+            return VFunc('file.seek', impl=seek)
+        if name == 'read':
+            def read(I2, b, a, k):
+                I2.st.trusted_used.add('file.seek(a); file.read(k): returns the k bytes of the file from offset a (fewer at end of file)')
+                n = lib.unopt(I2, a[0]).t
+                return VStr(z3.SubString(self.content, self.pos, n), True)
+            return VFunc('file.read', impl=read)
+        raise Unsupported('file.%s' % name)
+
+
+def sf_setup(I):
+    request = obj(I, 'request', 'Request')
+    response = obj(I, 'response', 'Response')
+    path = sym(I, 'path', Str)
+    g = I.st.ghost
+    g['FILE'] = core.fresh('file_content', z3.StringSort())
+    g['RH'] = HeadersModel(I, 'response.headers')
+    rng = {}
+    if I.st.choice(2, 'has_range') == 0:
+        rng['Range'] = sym(I, 'Range', Str)
+    g['QH'] = HeadersModel(I, 'request.headers', rng)
+    g['PROTO11'] = I.st.choice(2, 'http11') == 0
+    I.assume(core.fn('isabs_1', z3.StringSort(), z3.BoolSort())(path.t), 'requires an absolute path (Static passes abspath(...): documented precondition)')
+    return {'request': request, 'response': response, 'path': path}
+
+
+def s_get_ranges(I, recv, args, kw):
+    """contract of get_ranges (verified above): None | [] | non-empty list of (a, b) with 0 <= a < b <= content_length"""
+    n = lib.unopt(I, args[1]).t
+    c = I.st.choice(4, 'ranges')
+    g = I.st.ghost
+    if c == 0:
+        g['RANGES'] = None
+        return NONE
+    if c == 1:
+        g['RANGES'] = []
+        return VCList([])
+    k = 1 if c == 2 else 2
+    out = []
+    for i in range(k):
+        a, b = core.fresh('ra', z3.IntSort()), core.fresh('rb', z3.IntSort())
+        I.assume(z3.And(0 <= a, a < b, b <= n), 'ensures of get_ranges: ranges lie inside the entity')
+        out.append((a, b))
+    g['RANGES'] = out
+    return VCList([VTuple([VInt(a), VInt(b)]) for a, b in out])
+
+
+def sf_post(I, outcome, ctx):
+    kind, v = outcome
+    g = I.st.ghost
+    if kind == 'raise':
+        I.oblige('no_escape', z3.BoolVal(False), detail='escaping %s' % v.cls)
+        return
+    cover(I, 'return')
+    rh = g['RH'].d
+    n = g.get('C_LEN')
+    if g.get('NOTFOUND') or g.get('NOT_MODIFIED') or n is None:
+        return
+    rs = g.get('RANGES', 'unset')
+    status = g.get('STATUS')
+    body = g.get('BODY')
+    if not g['PROTO11'] or rs == 'unset':
+        cover(I, 'http10')
+        I.oblige('http10.no_partial_content', z3.BoolVal(status is None and 'Content-Range' not in rh))
+        I.oblige('whole.content_length_is_the_file_size', lib.unopt(I, rh['Content-Length']).t == n if 'Content-Length' in rh else z3.BoolVal(False))
+        return
+    if rs is None:
+        cover(I, 'whole')
+        I.oblige('whole.status_unchanged_and_no_content_range', z3.BoolVal(status is None and 'Content-Range' not in rh))
+        I.oblige('whole.content_length_is_the_file_size', lib.unopt(I, rh['Content-Length']).t == n if 'Content-Length' in rh else z3.BoolVal(False))
+        I.oblige('whole.body_is_the_file', z3.BoolVal(isinstance(body, FileModel)))
+    elif rs == []:
+        cover(I, 'unsatisfiable')
+        errs = g.get('HTTPERRORS', [])
+        I.oblige('unsatisfiable.answered_416', z3.BoolVal(len(errs) == 1) if len(errs) != 1 else lib.unopt(I, errs[0]).t == 416)
+        cr = rh.get('Content-Range')
+        I.oblige('unsatisfiable.content_range_names_the_size', z3.BoolVal(False) if cr is None else
+                 cr.t == z3.Concat(z3.StringVal('bytes */'), lib.int_to_str(n)))
+    elif len(rs) == 1:
+        cover(I, 'single')
+        a, b = rs[0]
+        I.oblige('single.status_206', z3.BoolVal(status is not None) if status is None else status == 206)
+        cr = rh.get('Content-Range')
+        want = z3.Concat(z3.StringVal('bytes '), lib.int_to_str(a), z3.StringVal('-'), lib.int_to_str(b - 1), z3.StringVal('/'), lib.int_to_str(n))
+        I.oblige('single.content_range_matches_the_bytes_sent', z3.BoolVal(False) if cr is None else cr.t == want,
+                 detail='Content-Range: bytes first-last/size with last inclusive')
+        cl = rh.get('Content-Length')
+        I.oblige('single.content_length_is_the_range_length', z3.BoolVal(False) if cl is None else lib.unopt(I, cl).t == b - a)
+        ok = isinstance(body, VStr)
+        I.oblige('single.body_is_exactly_the_requested_bytes', z3.BoolVal(False) if not ok else body.t == z3.SubString(g['FILE'], a, b - a),
+                 detail='exactly FILE[first:last+1]')
+    else:
+        cover(I, 'multipart')
+        I.oblige('multipart.status_206', z3.BoolVal(status is not None) if status is None else status == 206)
+        I.oblige('multipart.no_stale_content_length', z3.BoolVal('Content-Length' not in rh))
+
+
+def sf_status_hook(I, o, v):
+    if o.cls == 'Response':
+        I.st.ghost['STATUS'] = lib.unopt(I, v).t
+        return True
+    return False
+
+
+def sf_body_hook(I, o, v):
+    if o.cls == 'Response':
+        I.st.ghost['BODY'] = v
+        return True
+    return False
+
+
+def s_stat(I, recv, args, kw):
+    if I.st.choice(2, 'stat') == 1:
+        lib.raise_(I, 'OSError', VInt(2))
+    n = core.fresh('st_size', z3.IntSort())
+    I.assume(n >= 0)
+    I.assume(z3.Length(I.st.ghost['FILE']) == n, 'st_size is the length of the file')
+    I.st.ghost['C_LEN'] = n
+    return VCons('stat_result', [], attrs={'st_size': VInt(n), 'st_mode': VInt(core.fresh('st_mode', z3.IntSort())),
+                                           'st_mtime': VReal(core.fresh('mtime', z3.RealSort()))})
+
+
+def s_notfound(I, recv, args, kw):
+    I.st.ghost['NOTFOUND'] = True
+    return I.st.fresh_ref('NotFound')
+
+
+def s_validate_since(I, recv, args, kw):
+    if I.st.choice(2, 'validate_since') == 1:
+        I.st.ghost['NOT_MODIFIED'] = True
+        return I.st.fresh_ref('NotModified')
+    return NONE
+
+
+def s_httperror_sf(I, recv, args, kw):
+    I.st.ghost.setdefault('HTTPERRORS', []).append(args[2])
+    return I.st.fresh_ref('HTTPError')
+
+
+def s_make_file_ranges(I):
+    return None
+
+
+SPECS.append(FucSpec(
+    'C16', 'circuits/web/tools.py', 'serve_file', sf_setup, sf_post,
+    fields={'status': Int},
+    calls={'os.path.isabs': uf('isabs', Bool), 'os.stat': s_stat, 'stat.S_ISDIR': uf('S_ISDIR', Bool), 'notfound': s_notfound,
+           'formatdate': lambda I, r, a, k: VStr(core.fresh('http_date', z3.StringSort())), 'validate_since': s_validate_since,
+           'os.path.splitext': lambda I, r, a, k: VCList([VStr(core.fresh('stem', z3.StringSort())), VStr(core.fresh('ext', z3.StringSort()))]),
+           'mimetypes.types_map.get': lambda I, r, a, k: VStr(core.fresh('mime', z3.StringSort())),
+           'os.path.basename': uf('basename'), 'open': lambda I, r, a, k: FileModel(I.st.ghost['FILE']),
+           'get_ranges': s_get_ranges, 'httperror': s_httperror_sf, '_make_boundary': lambda I, r, a, k: VStr(core.fresh('boundary', z3.StringSort())),
+           'file_ranges': lambda I, r, a, k: VCons('multipart-generator', [])},
+    attr_hooks={'request.headers': lambda I: I.st.ghost['QH'], 'response.headers': lambda I: I.st.ghost['RH'],
+                'request.protocol': lambda I: VTuple([VInt(1), VInt(1 if I.st.ghost['PROTO11'] else 0)])},
+    setattr_hooks={'status': sf_status_hook, 'body': sf_body_hook},
+    cover=['return', 'whole', 'unsatisfiable', 'single', 'multipart', 'http10'],
+    clause='serve_file: a single satisfiable range is answered 206 with Content-Range "bytes a-(b-1)/size", Content-Length b-a and '
+           'exactly the bytes FILE[a:b]; no satisfiable range -> 416 with "bytes */size"; no (or ignored) Range header or HTTP/1.0 -> '
+           'the whole file with its size; several ranges -> 206 multipart (generator body not decided)'))
